@@ -14,3 +14,14 @@ void h_range(void)
     range_templ___compute(op, w_A, r);
     CANARY(); CANARY_IF(w_A >= 1 && !g_ct_hit && g_c == 0); CANARY_IF(w_A >= 1 && !g_ct_hit && g_c >= 1);
 }
+void h_range_top(void)
+{
+    struct range_templ *op; struct oper_item *r; struct edge_value *av = (struct edge_value *)malloc(1); node_handle w_A = nondet_int(); int w_L = nondet_int(); unsigned w_in = nondet_unsigned();
+    g_idr_rel = nondet_bool(); g_A0 = w_A; g_c = nondet_int(); g_res_c = nondet_long(); ghost_k = 0; g_lsize = 2; g_nnz = 1; g_zpos = 0;
+    __CPROVER_assume(g_c != g_A0 && g_c >= 1);
+    g_Au_full = (struct unpacked_node *)malloc(1); g_Au_sparse = (struct unpacked_node *)malloc(1); g_ct_item = (struct ct_item *)malloc(1);
+    __CPROVER_assume(g_Au_full && g_Au_sparse && g_ct_item && av);
+    g_ct_hit = nondet_bool(); g_ct_val = nondet_long();
+    range_templ__compute(op, w_L, w_in, av, w_A, r);
+    CANARY(); CANARY_IF(g_idr_rel && w_L != 0 && w_A < 0);
+}
